@@ -257,13 +257,14 @@ func (q *msgQueue) enqueue(msg cciptypes.Message, availableAfter time.Duration) 
 	)
 	lggr.Debug("waiting for the lock before adding msg")
 
-	containsMsg := q.containsMsg(msg.Header.MessageID)
-	if containsMsg {
+	// membership test and append happen in one critical section, so that two concurrent callers
+	// cannot both find the message absent and queue it twice
+	q.mu.Lock()
+	if q.msgIDs.Contains(msg.Header.MessageID) {
+		q.mu.Unlock()
 		lggr.Debug("message already exists in the queue")
 		return false
 	}
-
-	q.mu.Lock()
 	q.msgs = append(q.msgs, msgWithInfo{
 		msg:         msg,
 		availableAt: time.Now().Add(availableAfter).UTC(),
